@@ -7,6 +7,7 @@
   property theorems are in `Theorems.lean`.
 -/
 import YashModel.Fork.Lemmas
+import YashModel.Fork.RedirLemmas
 import YashModel.Trap.Theorems
 namespace YashModel.Fork
 open YashModel.Trap (Disp Action GrandState)
@@ -98,13 +99,29 @@ theorem applyOpCore_trapOK (init : Nat → Disp) (hinit : ∀ s, init s ≠ .cat
   | cd d =>
     unfold applyOpCore; simp only []
     split
+    · refine trapOK_congr init sh.env _ ?_ h
+      simp only [Env.trapState, setVar, (chdir_same _ _).2.2.1]
     · exact h
-    · exact h
+  | fdw n f =>
+    show TrapOK init (redirOp sh n (.file f)).env
+    rw [redirOp_env]
+    refine trapOK_congr init sh.env _ ?_ h
+    simp only [Env.trapState, (execRedir_same _ _ _).2.2.1]
+  | fdr n =>
+    show TrapOK init (redirOp sh n (.file "oin")).env
+    rw [redirOp_env]
+    refine trapOK_congr init sh.env _ ?_ h
+    simp only [Env.trapState, (execRedir_same _ _ _).2.2.1]
   | fdd n m =>
-    unfold applyOpCore; simp only []
-    split
-    · split <;> exact h
-    · exact h
+    show TrapOK init (redirOp sh n (.copy m)).env
+    rw [redirOp_env]
+    refine trapOK_congr init sh.env _ ?_ h
+    simp only [Env.trapState, (execRedir_same _ _ _).2.2.1]
+  | fdc n =>
+    show TrapOK init (redirOp sh n .close).env
+    rw [redirOp_env]
+    refine trapOK_congr init sh.env _ ?_ h
+    simp only [Env.trapState, (execRedir_same _ _ _).2.2.1]
   | raise sig =>
     unfold applyOpCore; simp only []
     split
